@@ -27,8 +27,8 @@ def main():
         if b < 0: continue
         h = hs[b]
         txt = C.HEADER + f"Definition inp := {h.coq_input()}.\nDefinition exp := {C.zl(encs[b])}.\n" + \
-            "Eval vm_compute in (let '(l,t,es) := inp in first_diff (enc_res (run (mkConfig l t) es)) exp 0).\n" + \
-            "Eval vm_compute in (let '(l,t,es) := inp in enc_res (run (mkConfig l t) es)).\n"
+            "Eval vm_compute in (let '(l,t,es) := inp in first_diff (enc_res (run (mkConfig l t) 400%nat es)) exp 0).\n" + \
+            "Eval vm_compute in (let '(l,t,es) := inp in enc_res (run (mkConfig l t) 400%nat es)).\n"
         rc, out = C.FAM.run_v(txt)
         print("---- case", b, "loglevel", h.loglevel, "timing", h.timing, "tc", h.timecode, "crash", res[b]["crash"])
         print("\n".join(h.cevents))
